@@ -23,6 +23,14 @@ class VwNT(typing.NamedTuple):
     first: typing.Any
     second: typing.Any = None
 
+class VwDeepHints:
+    """annotated attributes beyond the constructor's parameters, one of them nested several levels deep"""
+    name: typing.Any
+    retries: int = 3
+    routes: "dict[str, list[dict[str, tuple[int, ...]]]] | None" = None
+    def __init__(self, name, b=None):
+        self.name = name
+
 # objects that are falsy although they have fields (an empty page, a zero amount, a disabled flag)
 @dataclasses.dataclass
 class VwDCFalsy:
@@ -155,9 +163,10 @@ class VwSame:
         self.y = b
 '''
 
-CLASSES = ["VwDCFalsy", "VwNTFalsy", "VwSlotsFalsy", "VwDC", "VwNT", "VwNT1", "VwPlain", "VwPlainCV", "VwSlots", "VwSlotsPos", "VwSlotsPos", "VwSlotsPosSub", "VwSlotsOne", "VwPosSlots", "VwPosVars", "VwVars", "VwVarsDyn", "VwVarsDyn", "vw0same", "vw1same"]
+CLASSES = ["VwDeepHints", "VwDeepHints", "VwDCFalsy", "VwNTFalsy", "VwSlotsFalsy", "VwDC", "VwNT", "VwNT1", "VwPlain", "VwPlainCV", "VwSlots", "VwSlotsPos", "VwSlotsPos", "VwSlotsPosSub", "VwSlotsOne", "VwPosSlots", "VwPosVars", "VwVars", "VwVarsDyn", "VwVarsDyn", "vw0same", "vw1same"]
 # expected public (field, attribute) names per class, in order
 PUBLIC = {
+    "VwDeepHints": ["name", "retries", "routes"],
     "VwDCFalsy": ["a", "b"], "VwNTFalsy": ["first", "second"], "VwSlotsFalsy": ["a", "b"],
     "VwDC": ["a", "b"], "VwNT": ["first", "second"], "VwNT1": ["only"], "VwPlain": ["a", "b"], "VwPlainCV": ["a"],
     "VwSlots": ["a", "b"], "VwSlotsPos": ["x", "y", "zed", "w", "kappa"], "VwSlotsPosSub": ["x", "y", "zed", "w", "kappa", "extra"], "VwSlotsOne": ["x", "y", "zed", "w", "kappa", "single"], "VwPosSlots": ["ident", "name", "size"], "VwPosVars": ["ident", "name", "size"], "VwVars": ["a", "b"], "vw0same": ["a"], "vw1same": ["z", "y"],
@@ -261,7 +270,7 @@ class C18(PropBase):
     THOROUGH_RUNS = 300000
     QUICK_BUDGET_S = 45
     THOROUGH_BUDGET_S = 420
-    FAULT_KINDS = ("stream_error", "stream_empty", "clear", "interleave", "same_name")
+    FAULT_KINDS = ("stream_error", "stream_empty", "clear", "interleave", "same_name", "exhaust_scan")
     RULE = (
         "A case is one iteritems/itervalues call (or two result iterators consumed alternately) on a generated input: mappings "
         "(dict, OrderedDict, MappingProxyType, custom Mapping), structured instances of every flavour (dataclass with private and "
@@ -277,7 +286,7 @@ class C18(PropBase):
 
     def gen(self, seed, tier):
         rng = core.rng_for(seed, "gen")
-        sw = hist.swarm(rng, ("clear",))
+        sw = hist.swarm(rng, ("clear", "exhaust_scan"))
         steps = []
         n = rng.randint(1, 12 if tier == "quick" else 30)
         while len(steps) < n:
@@ -289,6 +298,9 @@ class C18(PropBase):
                 steps.append({"op": "interleave", "fn": rng.choice(["items", "values"]), "xs": [gen_x(rng), gen_x(rng)]})
             else:
                 steps.append({"op": rng.choice(["items", "items", "values"]), "x": gen_x(rng)})
+                if "exhaust_scan" in sw and steps[-1]["x"].get("x") == "struct" and rng.random() < 0.5:
+                    # the first use of the class's iteration strategy is attempted from every stack depth at which it cannot complete
+                    steps[-1]["scan"] = True
         return {"prop": self.ID, "seed": seed, "tier": tier, "world": _world(), "env": self.base_env(rng, fault_free=True),
                 "steps": steps_with_ids(steps), "meta": {"swarm": sw}}
 
@@ -329,7 +341,7 @@ class C18(PropBase):
                 items = [(k, v) for k, v in vars(x).items() if not k.startswith("_")]
             else:
                 names = PUBLIC[cname]
-                vals = {"a": a, "b": b, "first": a, "second": b, "only": a, "z": a, "y": b}
+                vals = {"a": a, "b": b, "first": a, "second": b, "only": a, "z": a, "y": b, "name": a, "retries": 3, "routes": None}
                 if cname in ("VwSlotsPos", "VwSlotsPosSub", "VwSlotsOne"):
                     vals = {"x": a, "y": b, "zed": 3, "w": "w", "kappa": None, "extra": "e", "single": 5}
                 if cname in ("VwPosSlots", "VwPosVars"):
@@ -374,6 +386,8 @@ class C18(PropBase):
             x, eitems, evalues, info = self.build_x(sess, step["x"])
             before = model.canon(x) if info["reiterable"] else None
             fn = serdes.iteritems if op == "items" else serdes.itervalues
+            if step.get("scan") and info.get("struct"):
+                sess.scan_exhaust({"mod": "vw0"}, _all_of, fn, x)
             got, exc = _consume(lambda: fn(x))
             after = model.canon(x) if info["reiterable"] else None
             sess._c18 = (eitems if op == "items" else evalues, info, got, exc, before, after)
@@ -471,6 +485,10 @@ class C18(PropBase):
                            sig=f"wrong-items:{sig_base}:{'first-elem-2' if first2 else 'plain'}")
         if before is not None and before != after:
             sess.violation("input-modified", i, {"spec": _s(spec)}, sig="input-modified:" + sig_base)
+
+
+def _all_of(fn, x):
+    return list(fn(x))
 
 
 def _digest_view(spec, op, got):
